@@ -22,3 +22,5 @@ open Emboss.Tok
 #print axioms C10_number_classes
 #print axioms C10_word_tokens
 #print axioms C10_word_tokens_are_maximal_runs
+#print axioms C10_tokenize_line_eq_spec
+#print axioms C10_tokenize_line_eq_documented_spec
